@@ -691,12 +691,23 @@ def build(case):
         w = base_world('trace', 0).clone()
         inst = INSTANCES[0]
         head = '%s,%s,%s,pending,' % (inst, repr(age_ts('W')), HOST)
-        pad = max(0, case['name_len'] - len(head) - 8)
+        pad = max(0, abs(case['name_len']) - len(head) - 8)
         w.zk_ms = int(age_ts('W') * 1000)
         shard = z.path.trace(inst, 'x').rsplit('/', 1)[0]
         w.admin.ensure_path(shard)
+        import base64
+        import hashlib
         for j in range(case['n']):
-            w.admin.create('%s/%s%07d-%s' % (shard, head, j, 'x' * pad), b'')
+            fill = 'x' * pad
+            if case['name_len'] < 0:
+                # deterministic, hardly compressible event data
+                raw, k = b'', 0
+                while len(raw) * 4 // 3 < pad:
+                    raw += hashlib.sha256(b'%d:%d' % (j, k)).digest()
+                    k += 1
+                fill = base64.b64encode(raw).decode().replace(
+                    '/', '_').replace('+', '-').replace('=', '')[:pad]
+            w.admin.create('%s/%s%07d-%s' % (shard, head, j, fill), b'')
         return w, 'trace', ('trace', case['n']), []
     if fam == 'S':
         w = base_world('server', case['nsnap']).clone()
@@ -888,15 +899,25 @@ def _size_part(base, case, out, stats):
         out.append(err)
         return
     snaps = w.snapshots('trace')
-    if w.uploads != 1 or len(snaps) != 1 or w.live('trace'):
-        raise HarnessError('size case: %d uploads, %d live'
-                           % (w.uploads, len(w.live('trace'))))
+    if len(snaps) != 1 or w.live('trace'):
+        # not what the unchanged code does with one full batch: judged like
+        # any other run (every record live or in a snapshot)
+        stats['size_cases_not_archived_in_one_snapshot'] += 1
+        check_archive(w, before, 'after one batch of %d events (%d snapshots,'
+                      ' %d still live)' % (case['n'], len(snaps),
+                                           len(w.live('trace'))), out, stats)
+        if not out:
+            raise HarnessError('size case: %d uploads, %d live'
+                               % (w.uploads, len(w.live('trace'))))
+        return
     blob = list(snaps.values())[0]
+    if len(blob) > MIB:
+        stats['size_cases_compressed_above_1MiB'] += 1
     raw = len(zlib.decompress(blob))
     stats['size_cases'] += 1
     stats['size_rows_uploaded'] += case['n']
     stats['size_uncompressed_bytes_%dx%d' % (case['n'],
-                                             case['name_len'])] = raw
+                                             abs(case['name_len']))] = raw
     if raw > 4 * MIB:
         stats['size_cases_above_4MiB'] += 1
     if raw > 16 * MIB:
@@ -978,9 +999,12 @@ def _prune_part(base, kind, max_count, out, stats):
 # -- menus ----------------------------------------------------------------------
 SIZE_MENU = {
     # (events in the batch, event name length, uncompressed size must exceed)
-    'quick': [(50, 80, 0), (3000, 150, 1), (12000, 150, 4)],
+    # a negative name length asks for names that hardly compress (the
+    # COMPRESSED snapshot then exceeds 1 MiB, ZooKeeper's default request
+    # limit - which the in-memory ZooKeeper does not enforce)
+    'quick': [(50, 80, 0), (3000, 150, 1), (12000, 150, 4), (5000, -400, 1)],
     'thorough': [(50, 80, 0), (3000, 150, 1), (12000, 150, 4),
-                 (5000, 1000, 8), (25000, 300, 16)],
+                 (5000, 1000, 8), (25000, 300, 16), (5000, -400, 1)],
 }
 
 
@@ -1091,7 +1115,7 @@ def case_size(case):
         return (2, sum(len(m) for m in case['servers']), 0, case['nsnap'],
                 case['batch'])
     if fam == 'Z':
-        return (-1, -case['n'] * case['name_len'], 0, 0, 0)   # biggest first
+        return (-1, -case['n'] * abs(case['name_len']), 0, 0, 0)   # biggest first
     return (3, case['n'], 0, 0, case['max_count'])
 
 
